@@ -130,6 +130,18 @@ pub fn build_case(profile_name: &str, mode: Mode, seed: u64, case: u64) -> Case 
                     c.restart = vec![*rng.pick(&[1, 1, 2, 16])];
                     c.hash_ratio = vec![*rng.pick(&[0.0, 0.75, 8.0])];
                 }
+                if profile.name == "wide" {
+                    // bloom filters on every level; the first tree of the group partitions filter and index (pinned: the
+                    // tree only supports pinned partitioned filters), the others vary
+                    c.block_size = vec![*rng.pick(&[64, 256])];
+                    c.filter = vec![*rng.pick(&[2, 3, 4])];
+                    c.expect_hits = false;
+                    if cfgs.is_empty() {
+                        c.filter_part = vec![true];
+                        c.pin_filter = vec![true];
+                        c.index_part = vec![true];
+                    }
+                }
                 thr.extend(c.thresholds());
                 cfgs.push(c);
             }
